@@ -14,7 +14,8 @@ import (
 //	                         on b.mu in the method (function literals, which run later, excluded)
 //	c20BufferAddDrainLocked  ReorderBuffer.Add has that shape; ReorderBuffer.Drain returns exactly one function literal
 //	                         that has that shape (the mutex is held for the whole loop, including the yields)
-//	c20ReserveUnderFlushMu   ReorderFetcher.flush: flushMu.Lock() comes before batcher.Flush, buffer.Reserve() after it,
+//	c20ReserveUnderFlushMu   ReorderFetcher.flush (or the one helper method of the same receiver it calls directly that takes
+//	                         flushMu): flushMu.Lock() comes before batcher.Flush, buffer.Reserve() after it,
 //	                         flushMu is not released in between except on a path that returns, it is released after
 //	                         Reserve, and Reserve is called nowhere else in the package
 func init() { extraFactFns = append(extraFactFns, c20Facts) }
@@ -121,7 +122,51 @@ func c20Facts(fc *facts) {
 	fc.set("c20BufferAddDrainLocked", b2u(okBuf), add != nil && drain != nil, "batching.ReorderBuffer.Add / Drain")
 
 	rf := parseFile("batching/reorder_fetcher.go")
-	fl := c20FindMethod(rf, "ReorderFetcher", "flush")
+	entry := c20FindMethod(rf, "ReorderFetcher", "flush")
+	// the critical section may live in `flush` itself or in a helper method of the same receiver that `flush` calls
+	// directly (one level): the function analysed is the one that takes flushMu
+	fl := entry
+	if entry != nil {
+		d0 := recvName(entry)
+		locksHere := func(fn *ast.FuncDecl) bool {
+			found := false
+			ast.Inspect(fn.Body, func(x ast.Node) bool {
+				switch c := x.(type) {
+				case *ast.FuncLit:
+					return false
+				case *ast.CallExpr:
+					if selName(c.Fun) == recvName(fn)+".flushMu.Lock" {
+						found = true
+					}
+				}
+				return true
+			})
+			return found
+		}
+		if !locksHere(entry) {
+			var helpers []*ast.FuncDecl
+			for _, st := range entry.Body.List {
+				ast.Inspect(st, func(x ast.Node) bool {
+					switch c := x.(type) {
+					case *ast.FuncLit, *ast.GoStmt:
+						return false
+					case *ast.CallExpr:
+						if se, ok := c.Fun.(*ast.SelectorExpr); ok && selName(se.X) == d0 {
+							if h := c20FindMethod(rf, "ReorderFetcher", se.Sel.Name); h != nil && locksHere(h) {
+								helpers = append(helpers, h)
+							}
+						}
+					}
+					return true
+				})
+			}
+			if len(helpers) == 1 {
+				fl = helpers[0]
+			} else {
+				fl = nil
+			}
+		}
+	}
 	okFlush := fl != nil
 	if okFlush {
 		d := recvName(fl)
@@ -213,5 +258,5 @@ func c20Facts(fc *facts) {
 		}
 		okFlush = okFlush && reserveCalls == 1
 	}
-	fc.set("c20ReserveUnderFlushMu", b2u(okFlush), fl != nil, "batching.ReorderFetcher.flush")
+	fc.set("c20ReserveUnderFlushMu", b2u(okFlush), entry != nil, "batching.ReorderFetcher.flush")
 }
